@@ -6,34 +6,44 @@ COQ_TARGETS = ['Props/Properties_C20.vo']
 PROPS_FILES = ['Props/Properties_C20.v']
 THEOREMS = ['C20_sortmx', 'C20_sortmx_stable', 'C20_spec_checker_sound', 'C20_tryconn_once', 'C20_not_me', 'C20_targets', 'C20_route_order', 'C20_route_empty_relay', 'C20_ports']
 ENGINES = [dict(name='mx', c_sources=['mx_h.c'], extract='Extract/Extract_mx.v', driver='mx_driver.ml',
-                accepts=lambda c: c.split(' ')[0] in ('01', '02', '03', '04', '05'))]
+                accepts=lambda c: c.split(' ')[0] in ('01', '02', '03', '04', '05', '06', '07'))]
 RULE = ('cases = (01) MX lists of 1..9 entries, preferences drawn from a small set with many ties plus the special values '
         '65535..65539 and 2^32-1, 1..4 addresses per entry from a small pool of IPv6 / v4-mapped / nearly-v4-mapped addresses, '
         'a few entries without addresses; (02) the same lists fresh or with USED/CURRENT marks and cur_s 0..3, 0..12 tryconn calls, '
         'connect() outcomes all-fail / mostly-fail / random; (03) interface lists with AF_INET, AF_INET6, NULL and other-family '
         'entries whose addresses are drawn from the pool the MX addresses come from, loopback and 0.0.0.0 included; '
-        '(05) the statement sequence of main(): filter on port 25, sort, connect. '
+        '(04) smtproute() in a real scratch control directory: target names exact / subdomain / unrelated / odd (leading, trailing, double dots, '
+        '254..256 octets), smtproutes.d holding random subsets of the probed names plus near-miss names, file contents with relay=/port= lines, '
+        'duplicates, unknown keys, rejected lines in front of valid ones, port strings at 0/1/65535/65536/2^32+25/2^64+25/signs/garbage, relays that '
+        'resolve, resolve to nothing or do not resolve, control/smtproutes with exact / suffix / empty / differently-cased / non-matching patterns, '
+        '0..3 colons; (05) the statement sequence of main(): filter on port 25, sort, connect. '
         'non-trivial = sort: at least two entries share a preference; connect: at least one failed attempt followed by another; '
-        'filter: at least one address removed; distinct by case text')
+        'filter: at least one address removed; route: a relay was chosen while several files or lines were candidates; distinct by case text')
 TRUSTED_BASE = [
-    'Coq 8.16.1 kernel (coqc; coqchk in thorough); vm_compute in the non-vacuity examples only; no native_compute',
+    'Coq 8.16.1 kernel (coqc; coqchk in thorough); vm_compute in the non-vacuity example only; no native_compute',
     'axioms: none (Print Assumptions: Closed under the global context)',
     'translator tools/translators/mx.py: regexes over include/qdns.h, qremote/conn.c, qremote/qremote.c, qremote/smtproutes.c, lib/ipme.c, '
     'lib/dns_helpers.c produce coq/Gen/GenMx.v (special priorities, the 65536 threshold of tryconn, port 25 of the local-address filter, '
-    'IN_LOOPBACKNET via gcc -E) and check that main() runs getmxlist / filter_my_ips (port 25 only) / sortmx / connect_mx in this order',
-    'hand-written model coq/Model/Mx.v tied to lib/dns_helpers.c:sortmx, qremote/conn.c:tryconn, lib/ipme.c:filter_my_ips by the correspondence run '
+    'default port, port limit, fnbuf size and key table of smtproutes.c, IN_LOOPBACKNET and NAME_MAX via gcc -E) and check that main() runs '
+    'getmxlist / filter_my_ips (port 25 only) / sortmx / connect_mx in this order',
+    'hand-written models coq/Model/Mx.v and coq/Model/MxRoute.v tied to lib/dns_helpers.c:sortmx, qremote/conn.c:tryconn, lib/ipme.c:filter_my_ips, '
+    'qremote/smtproutes.c:smtproute (+ lib/control.c:loadlistfd, lib/match.c:matchdomain as used by it) by the correspondence run '
     '(differential testing, bounded by the generator)',
     'glibc qsort() is stable for the small address arrays (merge sort): the model sorts the addresses of an entry by a stable partition',
+    'file system abstraction of the route model: openat() on smtproutes.d succeeds exactly for the names listed, ENAMETOOLONG above NAME_MAX; '
+    'lloadfilefd() on clean content (no blanks, comments, NUL, backslash, CR) = split at LF and drop empty lines; libc strtoul/strcasecmp(C locale) as modelled',
     'extraction with ExtrOcamlBasic only (no Extract Constant); ocaml/glue.ml + ocaml/mx_driver.ml hex parsing/printing',
-    'C harness harness/mx_h.c: #include of the three C files with socket/bind/connect/getifaddrs/freeifaddrs redirected; op 05 repeats the four '
-    'statements of qremote.c:main() (main itself cannot be included); gcc 12 -O1 ASan+UBSan vs. production build; IPV4ONLY undefined',
+    'C harness harness/mx_h.c: #include of the C files with socket/bind/connect/getifaddrs/freeifaddrs redirected, ask_dnsaaaa answered from the case, '
+    'err_confn as longjmp; op 05 repeats the four statements of qremote.c:main() (main itself cannot be included); gcc 12 -O1 ASan+UBSan vs. production build; IPV4ONLY undefined',
 ]
 ASSUMPTIONS = [
     'every MX entry has at least one address and the list is not empty (in6_to_ips asserts cnt > 0; getmxlist dies otherwise)',
     'for the connect theorems the list is fresh: every priority <= 65536 (DNS preferences are 16 bit, implicit MX is 65536)',
     'connect()/bind()/socket() outcomes are an arbitrary oracle list; greeting/EHLO failures are connect_mx calling tryconn again (modelled as the number of calls)',
     'getifaddrs() reports the local addresses; when it fails filter_my_ips returns the list unchanged (by design of the C) and nothing is claimed',
-    'smtproutes lookup (smtproute()) and DNS (ask_dnsmx) are not part of this model: the MX list and the port are inputs',
+    'smtproute: target name at most 254 octets, free of "/" and NUL, not "." or ".."; control files are clean text; only the keys relay= and port= of '
+    'smtproutes.d files are modelled (clientcert, clientkey, outgoingip, outgoingip6 are outside); ask_dnsaaaa of the relay is an oracle table',
+    'DNS MX lookup (ask_dnsmx) and the glue in getmxlist()/connect_mx() are not modelled: the MX list is an input of the sort/connect theorems',
 ]
 
 # ---------------------------------------------------------------- address pool
@@ -143,9 +153,10 @@ def routes_content(rng, host):
         lines.append(ln)
     return b'\n'.join(lines) + (b'\n' if lines else b'')
 
-def route_case(rng):
+def route_parts(rng, tab=None):
     host = rng.choice(HOSTS) if rng.random() < 0.9 else rng.choice([b'a.' * 126 + b'ab', b'a.' * 127, b'.' + b'a' * 253, b'.' + b'a' * 254, b'a' * 255, b'b.' + b'a' * 252, b'b.' + b'a' * 253])
-    tab = [r for r in RELAYS if rng.random() < 0.93]
+    if tab is None:
+        tab = [r for r in RELAYS if rng.random() < 0.93]
     flags = (1 if rng.random() < 0.7 else 0) | (2 if rng.random() < 0.75 else 0)
     files = []
     names = probe_names(host)
@@ -158,18 +169,83 @@ def route_case(rng):
     for n in distract:
         if rng.random() < 0.15 and 0 < len(n) <= 255:
             chosen.add(n)
-    chosen = [n for n in chosen if b'/' not in n]
+    chosen = sorted(n for n in chosen if b'/' not in n)
     rng.shuffle(chosen)
     for n in chosen:
         files.append((bytes([len(n)]) + n + d_file_content(rng)).hex())
     rc = routes_content(rng, host) if flags & 1 else b''
-    return ' '.join(['04', R.hx(host), dns_field(tab), (bytes([flags]) + rc).hex()] + files)
+    return host, tab, (bytes([flags]) + rc).hex(), files
+
+def route_case(rng):
+    host, tab, rf, files = route_parts(rng)
+    return ' '.join(['04', R.hx(host), dns_field(tab), rf] + files)
+
+MXNAMES = [b'mx1.example.net', b'mx2.example.net', b'mx3.example.net', b'mx4.example.net', b'nx.example.net', b'tmp.example.net', b'perm.example.net']
+
+def dnsx_field(tab):
+    out = b''
+    for n, a in tab:
+        out += bytes([len(n)]) + n + (bytes([a]) if isinstance(a, int) else bytes([len(a)]) + b''.join(a))
+    return out.hex() or '-'
+
+def mx_world(rng, host):
+    """resolver table for the MX names and the target itself, and the MX records of the target"""
+    tab = []
+    for n in MXNAMES[:4] + [host]:
+        x = rng.random()
+        if x < 0.80: tab.append((n, [addr(rng) for _ in range(rng.choice([1, 1, 2, 3]))]))
+        elif x < 0.86: tab.append((n, []))
+        elif x < 0.91: tab.append((n, 0xfe))
+        elif x < 0.95: tab.append((n, 0xfd))
+        elif x < 0.96: tab.append((n, 0xfc))
+    tab.append((b'tmp.example.net', 0xfe)); tab.append((b'perm.example.net', 0xfd))
+    flag = rng.choice([0] * 24 + [1, 1, 2, 3, 4])
+    recs = []
+    m = rng.random()
+    if m < 0.08: recs = [(rng.choice([0, 10]), b'.')]
+    elif m < 0.2: recs = []
+    else:
+        few = rng.sample([0, 5, 10, 10, 20, 30, 65535], 3)
+        for _ in range(rng.choice([1, 1, 2, 2, 3, 4, 5])):
+            recs.append((rng.choice(few), rng.choice(MXNAMES[:4] * 3 + MXNAMES[4:] + [b'a', b'.', host])))
+    rec = bytes([flag]) + b''.join(bytes([p >> 8, p & 255, len(n)]) + n for p, n in recs)
+    seen = set(); tab2 = []
+    for n, a in tab:
+        if n not in seen and len(n) < 256:
+            seen.add(n); tab2.append((n, a))
+    return tab2, rec.hex()
+
+def ifaces_from_tab(rng, tab):
+    es = [entry(0, 0, a) for _, a in tab if not isinstance(a, int) and a]
+    return ifaces(rng, es)
+
+def dnsmx_case(rng):
+    host = rng.choice([b'example.net', b'foo.example.net', b'mx1.example.net', b'', b'x'])
+    tab, rec = mx_world(rng, host)
+    return ' '.join(['06', R.hx(host), dnsx_field(tab), rec])
+
+def main_case(rng):
+    host0 = rng.choice(HOSTS)
+    while host0.startswith(b'['):
+        host0 = rng.choice(HOSTS)
+    tab, rec = mx_world(rng, host0)
+    # relays of the routes resolve through the same table
+    have = {n for n, _ in tab}
+    for n, a in RELAYS:
+        if n not in have and rng.random() < 0.9:
+            tab.append((n, a))
+    host, _, rf, files = route_parts(rng, tab)
+    if rng.random() < 0.8: host = host0
+    if rng.random() < 0.45: rf, files = '00', []          # no routes at all: plain DNS
+    t = 8
+    par = bytes([rng.randrange(0, 9), 0, 0, 0])
+    return ' '.join(['07', R.hx(host), dnsx_field(tab), rec, rf, par.hex(), R.hx(oracle(rng, t)), ifaces_from_tab(rng, tab)] + files)
 
 def total_addrs(es):
     return sum((len(e) // 2 - 5) // 16 for e in es)
 
 def gen_cases(engine, rng, tier):
-    n = 2000 if tier == 'quick' else 40000
+    n = 1500 if tier == 'quick' else 30000
     out = []
     for i in range(n):
         # 01 sort
@@ -195,6 +271,9 @@ def gen_cases(engine, rng, tier):
         out.append(' '.join(['05', par.hex(), R.hx(oracle(rng, t)), ifaces(rng, es)] + es))
         # 04 smtproute
         out.append(route_case(rng))
+        # 06 ask_dnsmx, 07 getmxlist + main()
+        out.append(dnsmx_case(rng))
+        out.append(main_case(rng))
     return out
 
 def _entries(fields):
@@ -205,7 +284,9 @@ def nontrivial(case, c_out):
     if f[0] == '01':
         pr = [e[:4] for e in _entries(f[1:])]
         return c_out.startswith('OK') and len(pr) != len(set(pr))
-    if f[0] in ('02', '05'):
+    if f[0] == '06':
+        return c_out.startswith('OK') and len(c_out.split(' ')) > 2
+    if f[0] in ('02', '05', '07'):
         toks = c_out.split(' ')
         # a failed attempt followed by another attempt
         return any(a.startswith('A') and b.startswith('A') for a, b in zip(toks, toks[1:]))
@@ -220,17 +301,22 @@ def distribution(results):
     d = {}
     for r in results:
         op = r['case'][:2]
-        k = op + ':' + ('crash' if r['c'] in ('CRASH', 'TIMEOUT') else 'allme' if r['c'] == 'ALLME' else 'fatal' if r['c'] == 'FATAL' else 'pre' if r['spec'] == 'pre' else 'noroute' if r['c'].endswith(' NONE') else 'run')
+        k = op + ':' + ('crash' if r['c'] in ('CRASH', 'TIMEOUT') else 'allme' if r['c'].endswith('ALLME') else 'die' if r['c'].startswith('DIE') else 'rc' if r['c'].startswith('RC') else 'fatal' if r['c'] == 'FATAL' else 'pre' if r['spec'] == 'pre' else 'noroute' if r['c'].endswith(' NONE') else 'run')
         d[k] = d.get(k, 0) + 1
     return d
 
-LEVEL_TEXT = ('Machine-checked Coq theorems over an executable model of sortmx, tryconn and filter_my_ips: for every non-empty MX list whose '
-              'entries have addresses sortmx returns a rearrangement that ascends in preference, puts entries containing IPv6 before IPv4-only '
-              'ones at equal preference and IPv6 addresses first inside an entry, and is stable; for every fresh list, every sequence of '
+LEVEL_TEXT = ('Machine-checked Coq theorems over executable models of smtproute, filter_my_ips, sortmx and tryconn: for every configuration and target name '
+              '(<= 254 octets) smtproute answers what the first existing smtproutes.d file in the order name, *.suffixes (longest first), default says, '
+              'else what the first valid matching control/smtproutes line says, an empty relay never yields relay addresses and keeps the port; '
+              'for every non-empty MX list whose entries have addresses sortmx returns a rearrangement that ascends in preference, puts entries containing '
+              'IPv6 before IPv4-only ones at equal preference and IPv6 addresses first inside an entry, and is stable; for every fresh list, every sequence of '
               'connect() outcomes and any number of tryconn calls the addresses are attempted once each in list order, a failed attempt is '
               'followed by the next address, and -ENOENT is answered only when all were attempted; filter_my_ips removes exactly the local '
-              'addresses; composed as in main() no local address is attempted on port 25. The model is tied to the C by a differential run under ASan.')
-LEVEL_NOTE = ('Trusted: Coq kernel, translator regexes, extraction (ExtrOcamlBasic), harness, generator quality of the correspondence run, stability of glibc qsort. '
-              'Not covered by a theorem: the smtproutes / smtproutes.d lookup order (smtproute()), DNS (ask_dnsmx), greeting/EHLO handling in connect_mx.')
-TECHNIQUE = 'Coq proofs by induction over the lists (insertion-sort invariant, representation invariant of the USED/CURRENT marks); translator-regenerated constants; model-vs-C differential run'
+              'addresses; composed as in main() no local address is attempted on port 25. The models are tied to the C by a differential run under ASan/UBSan.')
+LEVEL_NOTE = ('Trusted: Coq kernel, translator regexes, extraction (ExtrOcamlBasic), harness, generator quality of the correspondence run, stability of glibc qsort, '
+              'the file-system / lloadfilefd / libc abstractions of the route model. '
+              'Not covered by a theorem: DNS (ask_dnsmx and its priorities), the glue getmxlist() -> main() -> connect_mx() (greeting / EHLO handling; only the '
+              'statement order of main() is checked by the translator), the smtproutes.d keys other than relay/port, a whole-program Qremote run.')
+TECHNIQUE = ('Coq proofs by induction over the lists (insertion-sort invariant with a numeric key, representation invariant of the USED/CURRENT marks, '
+             'fuel-bounded probe loop against the list of documented names); translator-regenerated constants; model-vs-C differential run')
 DESIGN_REF = 'DESIGN.md section 5, C20; finding F-C20-1 in section 7'
